@@ -57,7 +57,8 @@ func TestMain(m *testing.M) {
 		"handle-encrypted", "handle-public", "handle-nosecrets", "derived-handle", "old-output-reaccepted", "subtle-built",
 		"odd-encoding", "odd-encoding-accepted", "odd-encoding-refused", "stream-aad-flipped-before-first-write", "stream-chunk-flipped-after-write",
 		"stream-aad-flipped-before-first-read", "stream-readbuf-flipped-after-read", "read-short-buffer-big-spare", "read-zero-len-buffer", "write-zero-len-chunk",
-		"replay-produce-after-overwrite", "replay-accept-after-overwrite", "replay-reference-checked", "prehash-primitives", "second-result-forced")
+		"replay-produce-after-overwrite", "replay-accept-after-overwrite", "replay-reference-checked", "prehash-primitives", "second-result-forced", "spare-larger-than-the-call",
+		"stream-device-fault-fired", "stream-source-fault-fired", "stream-write-continued-after-io-error", "stream-read-continued-after-io-error")
 	if core.Thorough() {
 		core.DeclareProbes("pooled-key")
 	} else {
@@ -210,11 +211,17 @@ type plan struct {
 	stateful       bool     // the library keeps random bytes between calls
 	// shapes of multi-step operations and of constructor inputs
 	readLens []int // lengths of Write chunks and of caller-supplied Read buffers (cycled)
+	ioFault  []int // per streaming phase: 0..2 the underlying writer / reader works, 3..6 it fails at a drawn position (cycled)
 	perturb  []int // per constructor byte input: 0..10 as read from the key, 11.. an unusual encoding (cycled)
 }
 
 var lenChoices = []int{16, 0, 1, 15, 17, 33, 64, 100, 257, 1000, 4200}
-var spareChoices = []int{0, 1, 8, 40, 300, 6000}
+
+// spare capacities behind caller slices; spareBig stands for "more than everything else in the call" (append- and
+// bytes.Buffer-style bugs only write into a capacity that suffices)
+const spareBig = -1
+
+var spareChoices = []int{0, 1, 8, 40, 300, 6000, 3, 16, 64, spareBig}
 var readLenChoices = []int{64, 0, 1, 7, 16, 48, 100, 300, 1024, 4096, 5000}
 
 func drawPlan(t *rapid.T) *plan {
@@ -255,6 +262,7 @@ func drawPlan(t *rapid.T) *plan {
 	p.flipSpare = rapid.SliceOfN(rapid.Bool(), 1, 3).Draw(t, "flipSpare")
 	p.readLens = rapid.SliceOfN(rapid.SampledFrom(readLenChoices), 1, 4).Draw(t, "readLens")
 	p.perturb = rapid.SliceOfN(rapid.IntRange(0, 15), 1, 4).Draw(t, "perturb")
+	p.ioFault = rapid.SliceOfN(rapid.IntRange(0, 6), 1, 3).Draw(t, "ioFault")
 	return p
 }
 
@@ -366,6 +374,8 @@ type world struct {
 	shapeCtr  int
 	master    tink.AEAD
 	noHandles bool // the entry's keys cannot be serialized
+	inStream  bool // a step-by-step streaming operation is in progress
+	faultCtr  int  // indexes plan.ioFault
 	keyCtr    int  // generated keys imported so far
 	mgrCtr    int  // handles made through a manager so far
 	pertCtr   int  // constructor byte inputs seen (indexes plan.perturb)
@@ -451,9 +461,17 @@ func (w *world) in(op, role string, data []byte, spare int) *Buf {
 	return b
 }
 
-func (w *world) nextSpare() int {
+func (w *world) nextSpare() int { return w.nextSpareFor(512) }
+
+// nextSpareFor: the next drawn spare capacity; big is what "larger than everything else in the call" means here.
+func (w *world) nextSpareFor(big int) int {
 	w.shapeCtr++
-	return w.pl.spares[w.shapeCtr%len(w.pl.spares)]
+	s := w.pl.spares[w.shapeCtr%len(w.pl.spares)]
+	if s == spareBig {
+		w.r.Probe("spare-larger-than-the-call")
+		return max(big, 512)
+	}
+	return s
 }
 
 // checkBufs verifies invariant (a) for the given buffers, attributing damage to op.
@@ -1652,7 +1670,8 @@ func (w *world) useOnce(p *prim, msg, aux []byte, auxNil bool, keepSample, flipp
 	w.tolerate = p.lenient
 	defer func() { w.tolerate = false }()
 	opP := p.opP
-	spM, spA := w.nextSpare(), w.nextSpare()
+	big := len(msg) + len(aux) + 128 // "more spare capacity than everything else in the call"
+	spM, spA := w.nextSpareFor(big), w.nextSpareFor(big)
 	mb := w.in(opP, "message", msg, spM)
 	var ab *Buf
 	var auxS []byte
@@ -1766,12 +1785,13 @@ func (w *world) acceptOnce(p *prim, out, msg, aux []byte, auxNil bool, flippable
 	w.tolerate = p.lenient
 	defer func() { w.tolerate = false }()
 	opA := p.opA
-	cb := w.in(opA, "ciphertext/tag/signature", out, w.nextSpare())
-	mb := w.in(opA, "message", msg, w.nextSpare())
+	big := len(out) + len(msg) + len(aux) + 128
+	cb := w.in(opA, "ciphertext/tag/signature", out, w.nextSpareFor(big))
+	mb := w.in(opA, "message", msg, w.nextSpareFor(big))
 	var ab *Buf
 	var auxS []byte
 	if !auxNil {
-		ab = w.in(opA, "associated data", aux, w.nextSpare())
+		ab = w.in(opA, "associated data", aux, w.nextSpareFor(big))
 		auxS = ab.Slice()
 	}
 	w.lastAccept = &callRec{ctB: cb, msgB: mb, auxB: ab}
@@ -1834,6 +1854,10 @@ func (w *world) stepOp(arg int) {
 		p = w.prims[arg%len(w.prims)]
 	}
 	if p == nil {
+		return
+	}
+	if p.stream != nil && arg%2 == 1 && !w.inStream {
+		w.stepStream(arg) // streaming primitives: every other use is the step-by-step one
 		return
 	}
 	w.shapeCtr++
@@ -2006,6 +2030,10 @@ func (w *world) execute() {
 	w.dueFlips(true)
 	w.sweep(false)
 	w.usePrims()
+	if len(w.prims) > 0 && w.prims[0].stream != nil {
+		w.mark()
+		w.stepStream(0) // every run of a streaming entry has at least one step-by-step operation
+	}
 	if (len(w.handles) > 0 || w.pl.ent.sub != nil) && len(w.prims) < 5 && !w.noHandles {
 		w.mark()
 		if p := w.stepPrims(0); p != nil {
